@@ -306,6 +306,15 @@ func pathFor(e *simEnv, fm form, flow int, w window, destAt int, r *rand.Rand, n
 	}
 	m.destDelay = time.Duration(1+r.Intn(60)) * time.Millisecond
 	m.destBuild = fm.dest
+	if noise && !v.Serial && last > w.first {
+		// one send returns late (the sender is descheduled inside the write) while that hop answers at once:
+		// the reply is read before the sender continues
+		k := 2 + r.Intn(last-w.first)
+		e.w.Faults[simnet.FaultKey{Handle: -1, Op: "write", K: k}] = simnet.Fault{StallAfter: 30 * time.Millisecond}
+		if hs := m.hops[w.first+k-1]; hs != nil && !hs.silent {
+			hs.delay = 3 * time.Millisecond
+		}
+	}
 	return m
 }
 
